@@ -31,6 +31,15 @@ Experiments (field "exp" of a case)
                result inside the session is judged as in the single-step experiments.  NTAG21x / Ultralight EV1 /
                Ultralight C have no message authentication for reads (outside the second sentence of the property):
                the same sequences are run there and what the cache does is recorded, not judged.
+               Lite-S sessions additionally contain write_with_mac / write_without_mac steps, steps made through a
+               SECOND tag object for the same activated tag, and writes with MAC whose answer is lost (the tag executed
+               them): several writes with MAC of one tag object - the STATE write of every authenticate() is one -
+               with the tag's write counter WCNT moving in between where that object does not see it.  WCNT takes
+               part in MAC_A, so authenticate(right password) returns True only if the value used is the tag's
+               current one.  Which Write commands advance WCNT (with MAC only / every write to non-volatile memory /
+               RC writes too) is a parameter of the tag model ("wcnt_counts"); all experiments run under all three.
+  protect      ... also continues on the SAME tag object: authenticate(p) True, authenticate(q) not True,
+               authenticate(p) True again (FeliCa; Type 2: the first one only, a NAK ends the activation).
 
 Counterfeit tags / block count (mode "reblock"): every Read response of the FeliCa authentication exchange, of
 read_with_mac and of the NDEF read is also delivered as a *well-formed* response (LEN octet right, status 0000) that
@@ -77,7 +86,11 @@ RULE = ("cases = (tag kind {FeliCa Lite, Lite-S, Lite-S/Link, NTAG210/212/213/21
         "with MAC per session; sessions of 3-7 steps over {ndef read, authenticate right/wrong, ndef write, "
         "read_with_mac, has_changed} x man in the middle on/off per step x standing modification {message bit, block "
         "substituted, attribute length rewritten} on one tag object (13 fixed sequences + random ones), reads before "
-        "authentication included. A case is distinct by (experiment, tag model, password, modification) and non-trivial when the "
+        "authentication included; Lite-S sessions of 2-9 steps over {authenticate, write_with_mac, write_without_mac, "
+        "ndef read/write, read_with_mac} x {this tag object, a second tag object of the same activation} x {answer to "
+        "the write with MAC / STATE write lost} x WCNT counting rule of the model {mac, nv, all} (10 fixed sequences + "
+        "random ones); protect(p) then authenticate(p), authenticate(q), authenticate(p) on the same tag object. "
+        "A case is distinct by (experiment, tag model, password, modification) and non-trivial when the "
         "deciding call was reached (tag activated, set-up authentication succeeded, modification applied).")
 ASSUMPTIONS = [
     "vf.sim.t3t / vf.ref.felica_mac (session key, MAC, MAC_A, WCNT rules from the FeliCa Lite/Lite-S manuals) and "
@@ -94,6 +107,11 @@ ASSUMPTIONS = [
     "successful authenticate() counts as data read with message authentication (FelicaLite switches the NDEF read "
     "to read_with_mac); data falsified during an unprotected read *before* authentication is a modification of the "
     "tag's responses like any other; Type 2 tags have no MAC on reads, their cache behaviour is observed only",
+    "Lite-S WCNT: the model advances it on writes with MAC ('mac'), on every write that programs non-volatile memory "
+    "('nv') or on RC writes as well ('all') - a reader can rely on none of these (other readers / tag objects write "
+    "too), every rule is a legal tag; the verdict of authenticate() must not depend on it.  A second tag object for "
+    "the same activated tag and a lost answer to a write are histories, not modifications: authenticate() is judged "
+    "only when nothing of its own exchange was modified or lost",
     "a valid response of the *same* session for other blocks spliced in is outside the quantifier (the Lite MAC "
     "does not cover block numbers); observed and counted, not judged",
 ]
@@ -117,7 +135,16 @@ REQUIRED = ["sessions_lite", "sessions_lites", "sessions_ntag21x", "sessions_ulc
             "order_falsified_before_auth_then_rejected/lite", "order_falsified_before_auth_then_rejected/lites",
             "order_mac_reads_after_auth", "order_repeated_read_after_auth_ok", "order_reauth_after_failed_auth",
             "order_read_after_write_ok", "order_read_after_refused_write_ok", "order_rmac_ok",
-            "order_rmac_tampered_rejected"]
+            "order_rmac_tampered_rejected",
+            # Lite-S: later writes with MAC of one tag object (authenticate again, write_with_mac) after the tag's
+            # WCNT moved outside what that object saw; protect(p) -> authenticate(p) on the same object
+            "order_auth_true_after_earlier_mac_write/mac", "order_auth_true_after_earlier_mac_write/nv",
+            "order_auth_true_after_earlier_mac_write/all", "order_auth_true_wcnt_moved_outside/plain-write",
+            "order_auth_true_wcnt_moved_outside/rc-write", "order_auth_true_wcnt_moved_outside/other-object",
+            "order_auth_true_wcnt_moved_outside/lost-response", "order_wmac_ok", "order_wmac_refused_by_tag",
+            "order_second_tag_object", "protect_same_object_auth_ok/lite", "protect_same_object_auth_ok/lites",
+            "protect_same_object_auth_ok/ntag21x", "protect_same_object_auth_ok/ulc",
+            "protect_same_object_reauth_after_wrong_ok/lites"]
 
 NTAGS = ("ntag210", "ntag212", "ntag213", "ntag215", "ntag216")
 ULEV1 = ("ul11", "ul21")
@@ -126,6 +153,7 @@ COMMAND_BOUND = 4000       # per activation; a full single-bit enumeration of a 
 FACTORY = {"lite": bytes(16), "lites": bytes(16), "ntag21x": b"\xFF\xFF\xFF\xFF\x00\x00", "ulev1": b"\xFF\xFF\xFF\xFF\x00\x00",
            "ulc": bytes.fromhex("49454D4B41455242214E4143554F5946")}
 KEYLEN = {"lite": 16, "lites": 16, "ntag21x": 6, "ulev1": 6, "ulc": 16}
+WCNT_RULES = ("mac", "nv", "all")
 COVERED = frozenset(["data", "mac", "wcnt", "pack", "ek-rndb", "ek-rnda"])
 
 
@@ -211,6 +239,8 @@ def build_model(ms):
         if k == "lites":
             kw["wcnt"] = ms.get("wcnt", 0)
         m = (T3TModel.lite if k == "lite" else T3TModel.lites)(**kw)
+        if k == "lites":
+            m.wcnt_counts = ms.get("wcnt_counts", "mac")
         if "mc" in ms:
             m.blocks[0x88] = bytearray(ms["mc"])
         return m
@@ -255,6 +285,8 @@ class Mitm(object):
         self.rule = None
         self.rule_on = False
         self.wire = []
+        self.wire_wcnt = []       # Lite-S: WCNT of the model after each command of `wire`
+        self.lose = None          # session experiments: role of the command whose next response is lost once
 
     def __getattr__(self, name):
         return getattr(self.inner, name)
@@ -288,7 +320,10 @@ class Mitm(object):
             out = rsp
             if self.rule_on and rsp is not None:
                 out = apply_rule(self.rule, data, rsp)
+            if self.lose is not None and rsp is not None and role_of(self.inner.kind, data) == self.lose:
+                self.lose, out = None, None          # the tag executed the command, its answer does not arrive
             self.wire.append((data, rsp, out))
+            self.wire_wcnt.append(self.inner.wcnt if getattr(self.inner, "kind", None) == "lites" else None)
             return out
         if self.plan is None:
             return rsp
@@ -707,6 +742,15 @@ def post_auth_checks(R, sess, res, case):
                    "authentication (EXT_AUTH is 0)", case)
 
 
+def post_auth_checks_obj(R, sess, who, res, case):
+    """post_auth_checks for another tag object of the session"""
+    old, sess.tag = sess.tag, who
+    try:
+        post_auth_checks(R, sess, res, case)
+    finally:
+        sess.tag = old
+
+
 def describe(res):
     if res[0] == "ret":
         return "returned %r" % (res[1] if not isinstance(res[1], (bytes, bytearray)) else bytes(res[1]).hex(),)
@@ -1116,6 +1160,38 @@ def x_protect(case, R):
         # (the authentications below are still made and judged: what counts is what the tag answers)
     else:
         R.count("protect_key_stored_ok")
+    # the same tag object goes on (no new activation): protect(p) followed by authenticate(p).  On Lite-S protect()
+    # itself authenticated (a write with MAC) and then made plain writes; the STATE write of this authenticate is a
+    # later write with MAC of the same object, the tag's WCNT has moved in between under every counting rule but "mac"
+    res = call(lambda: tag.authenticate(pw_obj(pw, ptype)))
+    if res == ("ret", True):
+        R.count("protect_same_object_auth_ok/%s" % fam)
+        post_auth_checks(R, sess, res, case)
+    else:
+        report(R, sess, "protect-auth/same-object/same-password-fails/%s/%s/%s" % (fam, ptype, okind(res)),
+               "protect(p) returned True on a %s tag (%s); authenticate(p) on the same tag object with the same %s "
+               "object %s" % (kind, prior, ptype, describe(res)), case)
+    if fam in ("lite", "lites") and case.get("others"):
+        # (FeliCa only: a Type 2 tag that answered NAK waits for a new activation)
+        first_ok = res == ("ret", True)
+        qr = [(q_, r_) for q_, r_ in case["others"] if canon(fam, derive(fam, q_) or b"") != canon(fam, key)]
+        if qr:
+            q, rel = qr[0]
+            res = call(lambda: tag.authenticate(pw_bytes(q)))
+            if res == ("ret", True):
+                report(R, sess, "protect-auth/same-object/other-password-accepted/%s/%s" % (fam, rel),
+                       "after protect(p), same tag object: authenticate(q) returned True for a q that derives "
+                       "another key (%s)" % rel, case)
+            else:
+                R.count("protect_same_object_other_password_rejected")
+            res = call(lambda: tag.authenticate(pw_obj(pw, ptype)))
+            if res == ("ret", True):
+                R.count("protect_same_object_reauth_after_wrong_ok/%s" % fam)
+            else:
+                report(R, sess, "protect-auth/same-object/same-password-fails/%s/%s/%s/after-wrong-password"
+                       % (fam, ptype, okind(res)),
+                       "protect(p) True, authenticate(p) %s, authenticate(q), then authenticate(p) on the same "
+                       "tag object %s" % ("True" if first_ok else "not True", describe(res)), case)
     # a new session: the same password (the very same kind of object) must authenticate
     tag = sess.open()
     res = call(lambda: tag.authenticate(pw_obj(pw, ptype)))
@@ -1195,9 +1271,10 @@ def reference_records(octets):
 
 def step_label(st):
     op = st["op"]
+    pre = "o:" if st.get("o") else ""
     if op == "auth":
-        return "auth" + ("+" if st.get("right") else "-")
-    return op + ("*" if st.get("t") else "")
+        return pre + "auth" + ("+" if st.get("right") else "-") + ("!" if st.get("lose") else "")
+    return pre + op + ("*" if st.get("t") else "") + ("!" if st.get("lose") else "")
 
 
 def x_order(case, R):
@@ -1207,12 +1284,21 @@ def x_order(case, R):
          {"op": "write", "data": d}          tag.ndef.octets = d
          {"op": "rmac", "blocks": [..]}      tag.read_with_mac(*blocks)                       (FeliCa)
          {"op": "changed"}                   tag.ndef.has_changed (a forced re-read)
+         {"op": "wmac", "block": n, "data": d}    tag.write_with_mac(d, n)                    (Lite-S)
+         {"op": "wplain", "block": n, "data": d}  tag.write_without_mac(d, n)
+       auth / wmac / wplain steps with "o": 1 go through a SECOND tag object made for the same, still activated tag
+       (nfc.tag.activate(clf, tag.target)); with "lose": role the tag's answer to the first command of that role in
+       the step (a write with MAC, the STATE write of authenticate) does not arrive: the tag executed the write, the
+       reader can not know.  These steps move the tag's write counter WCNT - which takes part in the MAC_A of every
+       later write with MAC, the STATE write of the Lite-S mutual authentication included - in ways the tag object does
+       not see; under which Write commands WCNT advances is part of the tag model (ms["wcnt_counts"]).
        every step with "t": 1 runs while the man in the middle applies case["rule"] (apply_rule) to every response.
        Judged (FeliCa Lite / Lite-S): every authenticate() result; every read_with_mac() result; every NDEF result
        handed to the application while the last authenticate() returned True is the message the tag model holds or a
        failure - whether it comes from a new read or from the object cached by an earlier (unprotected) read.
-       Returning cached *genuine* data without a new read is fine.  Type 2 families have no message authentication
-       for reads: their sessions are recorded, not judged."""
+       Returning cached *genuine* data without a new read is fine.  write_with_mac() that reports success was
+       applied by the model (which verifies MAC_A and WCNT); a refused / failed one is counted.  Type 2 families have
+       no message authentication for reads: their sessions are recorded, not judged."""
     ms, rule, steps = case["ms"], case["rule"], case["steps"]
     sess = Sess(ms, R)
     fam, kind = sess.fam, sess.kind
@@ -1223,7 +1309,7 @@ def x_order(case, R):
         R.case(key, nontrivial=False)
         return
     mitm, model = sess.mitm, sess.model
-    mitm.rule, mitm.wire = rule, []
+    mitm.rule, mitm.wire, mitm.wire_wcnt = rule, [], []
     R.count("order_sessions/" + fam)
     R.seen("order_sequences/" + ("felica" if felica else "t2"), " ".join(step_label(st) for st in steps))
     authed = False            # the last authenticate() of this session returned True
@@ -1233,6 +1319,51 @@ def x_order(case, R):
     genuine_since_auth = False
     unknown = False           # a write failed half way: cache and tag may differ for reasons outside this property
     judged = 0
+    objs = {0: tag}           # 0: the tag object of the session, 1: a second object for the same activated tag
+    view, causes, macw, diverged = {}, {}, {}, {}
+    wcnt0 = model.wcnt if kind == "lites" else None
+
+    def obj(st):
+        oid = 1 if st.get("o") else 0
+        if oid not in objs:
+            import nfc.tag
+            objs[oid] = nfc.tag.activate(sess.clf, tag.target)
+            R.count("order_second_tag_object")
+        return oid, objs[oid]
+
+    def account(oid, w0):
+        """Lite-S, after a step of tag object `oid`: which commands moved the tag's WCNT, and whether a reader that
+        counts its own successful writes with MAC (view) would still know it (bookkeeping for counters/signatures)"""
+        diverged.pop(oid, None)
+        if kind != "lites":
+            return
+        for k in range(w0, len(mitm.wire)):
+            cmd, rsp, out = mitm.wire[k]
+            role = role_of(kind, cmd)
+            before = mitm.wire_wcnt[k - 1] if k > 0 else wcnt0
+            moved = mitm.wire_wcnt[k] != before
+            if role in ("state-write", "mac-write"):
+                macw[oid] = macw.get(oid, 0) + 1
+                if oid not in view:
+                    view[oid], causes[oid] = int.from_bytes(cmd[-8:-5], "little"), set()
+                if moved and out is not None and out == rsp:
+                    view[oid] = (view[oid] + 1) & 0xFFFFFF
+                elif moved:
+                    causes[oid].add("lost-response")
+                if moved:
+                    for o2 in view:
+                        if o2 != oid:
+                            causes[o2].add("other-object")
+            elif role == "wcnt-read" and oid in view and rsp is not None and rsp == out:
+                if before != view[oid]:
+                    diverged[oid] = set(causes[oid]) or {"unexplained"}
+                view[oid], causes[oid] = before, set()
+            elif moved:
+                for o2 in view:
+                    causes[o2].add("rc-write" if role == "rc-write" else "plain-write")
+
+    def in_message_area(block):
+        return block <= (len(genuine_message(sess) or b"") + 15) // 16
 
     def viol(sig, what, i):
         report(R, sess, sig, "step %d (%s) of [%s]: %s" % (i, step_label(steps[i]),
@@ -1243,37 +1374,96 @@ def x_order(case, R):
         mitm.rule_on = bool(st.get("t"))
         w0 = len(mitm.wire)
         if op == "auth":
-            res = call(lambda: tag.authenticate(pw_obj(st["pw"], "bytes")))
-            mitm.rule_on = False
+            oid, who = obj(st)
+            earlier = macw.get(oid, 0)
+            mitm.lose = st.get("lose")
+            res = call(lambda: who.authenticate(pw_obj(st["pw"], "bytes")))
+            mitm.rule_on, mitm.lose = False, None
+            account(oid, w0)
             is_true = res == ("ret", True)
             h = holds(ms, st["pw"])
             touched_ = any(r is not None and r != o for _c, r, o in mitm.wire[w0:])
+            if touched_ and st.get("lose"):
+                R.count("order_auth_response_lost/%s" % okind(res))
             if felica and not touched_:
                 judged += 1
                 if h and not is_true:
-                    viol("order/auth-false-negative/%s/%s" % (fam, okind(res)),
+                    viol("order/auth-false-negative/%s/%s%s" % (fam, okind(res),
+                                                                "/after-earlier-mac-write" if earlier else ""),
                          "the model holds the key of this password, nothing of the exchange was modified, "
-                         "authenticate() %s" % describe(res), i)
+                         "authenticate() %s%s" % (describe(res), " (%d write(s) with MAC were sent through this tag "
+                                                  "object before; WCNT rule of the model: %s)"
+                                                  % (earlier, ms.get("wcnt_counts", "mac")) if earlier else ""), i)
                 elif not h and is_true:
                     viol("order/auth-false-positive/%s" % fam,
                          "authenticate() returned True although the model holds another key", i)
                 elif is_true:
                     R.count("order_auth_in_session_true")
-                    if failed_before:
+                    if failed_before and not oid:
                         R.count("order_reauth_after_failed_auth")
+                    if earlier:
+                        R.count("order_auth_true_after_earlier_mac_write/%s" % ms.get("wcnt_counts", "mac"))
+                    for c in diverged.get(oid, ()):
+                        R.count("order_auth_true_wcnt_moved_outside/" + c)
                 else:
                     R.count("order_auth_in_session_rejected")
             R.count("order_auth/%s/%s" % (fam, okind(res)))
+            if oid:
+                # (a new challenge was written: the session key the first tag object holds is void; what it reads
+                # with MAC from now on does not verify - "genuine or a failure" stays the oracle)
+                R.count("order_auth_other_object/%s" % okind(res))
+                if is_true and felica:
+                    post_auth_checks_obj(R, sess, who, res, case)
+                continue
             authed = is_true
             genuine_since_auth = False
             failed_before = failed_before or not is_true
             if is_true and felica:
                 post_auth_checks(R, sess, res, case)
             continue
+        if op in ("wmac", "wplain"):
+            oid, who = obj(st)
+            block, data = int(st["block"]), bytes(st["data"])
+            hits_message = in_message_area(block)
+            nlog = len(model.write_log)
+            mitm.lose = st.get("lose")
+            if op == "wmac":
+                res = call(lambda: who.write_with_mac(data, block))
+            else:
+                res = call(lambda: who.write_without_mac(data, block))
+            mitm.rule_on, mitm.lose = False, None
+            account(oid, w0)
+            new = model.write_log[nlog:]
+            applied_w = any(ok_ and nums == ([block, 0x91] if op == "wmac" else [block]) for nums, ok_ in new)
+            lost = any(r is not None and o is None for _c, r, o in mitm.wire[w0:])
+            success = res == ("ret", None)
+            if applied_w and hits_message:
+                unknown = True          # the message area was written behind the NDEF object's back: not judged any more
+            if op == "wplain":
+                R.count("order_wplain/%s/%s" % ("applied" if applied_w else "refused", okind(res)))
+                continue
+            if success and not applied_w:
+                viol("order/wmac-success-but-model-rejected/%s" % fam, "write_with_mac(block %d) returned normally but "
+                     "the tag model did not apply the write" % block, i)
+            elif success:
+                judged += 1
+                R.count("order_wmac_ok")
+                for c in diverged.get(oid, ()):
+                    R.count("order_wmac_ok_wcnt_moved_outside/" + c)
+                if block <= 0x0E and model.get_block(block) != data:
+                    viol("order/wmac-applied-other-data/%s" % fam, "block %d holds %s after write_with_mac(%s)"
+                         % (block, model.get_block(block).hex(), data.hex()), i)
+            else:
+                R.count("order_wmac_failed/%s/%s/%s" % ("response-lost" if lost else "quiet",
+                                                        "applied" if applied_w else "not-applied", okind(res)))
+                if not lost and not applied_w and new and new[-1][0] == [block, 0x91]:
+                    R.count("order_wmac_refused_by_tag")
+            continue
         want = genuine_message(sess)
         if op == "ndef":
             res = call(lambda: ndef_view(tag))
             mitm.rule_on = False
+            account(0, w0)
             wire = mitm.wire[w0:]
             applied = any(r is not None and r != o for _c, r, o in wire)
             roles = [role_of(kind, c) for c, _r, _o in wire]
@@ -1360,6 +1550,7 @@ def x_order(case, R):
 
             res = call(do_write)
             mitm.rule_on = False
+            account(0, w0)
             now = genuine_message(sess)
             R.count("order_write/%s/%s/%s" % (fam, "authenticated" if authed else "not-authenticated", okind(res)))
             if res == ("ret", None) and now == bytes(st["data"]):
@@ -1375,6 +1566,7 @@ def x_order(case, R):
             wantb = expected_blocks(model, blocks)
             res = call(lambda: tag.read_with_mac(*blocks))
             mitm.rule_on = False
+            account(0, w0)
             applied = any(r is not None and r != o for _c, r, o in mitm.wire[w0:])
             if res[0] == "ret" and isinstance(res[1], (bytes, bytearray)):
                 judged += 1
@@ -1395,6 +1587,7 @@ def x_order(case, R):
         elif op == "changed":
             res = call(lambda: tag.ndef.has_changed)
             mitm.rule_on = False
+            account(0, w0)
             R.count("order_has_changed/%s" % okind(res))
     mitm.rule = None
     R.case(key, nontrivial=judged > 0 or not felica)
@@ -1487,6 +1680,9 @@ def t3_spec(rng, kind, key, msg=None, ndef=None):
     ms["msg"] = bytes(msg)
     if kind == "lites":
         ms["wcnt"] = rng.choice([0, 1, 0xFF, 0x100, 0xFFFF, 0x10000, 0xFFFE00, rng.randrange(0xFFFF00)])
+        # which executed writes advance WCNT on this tag (writes with MAC / every write to non-volatile memory / RC
+        # writes too): nothing the reader may rely on, every experiment runs under all three (no draw from rng)
+        ms["wcnt_counts"] = WCNT_RULES[ms["salt"] % 3]
         if rng.random() < 0.25:
             ms["ic"] = 0xF2
     return ms
@@ -1936,6 +2132,22 @@ ORDER_PATTERNS = [
     "A+ N W* N",                  # (modification of the attribute block) the write is refused, nothing was written
 ]
 ORDER_PATTERNS_T2 = ["N* A+ N", "A+ N* A+ N", "N A+ N*"]
+# Lite-S: several writes with MAC through one tag object (the STATE write of authenticate is one) with things in
+# between that move the tag's WCNT where the tag object does not see it.  M = write_with_mac, P = write_without_mac,
+# prefix O: = through a second tag object of the same activated tag, suffix ! = the tag's answer to the write with MAC
+# (M) / to the STATE write (A+) is lost.  Every pattern runs under each WCNT counting rule of the tag model.
+ORDER_PATTERNS_WCNT = [
+    "A+ P A+ N",                  # a plain write between two authentications
+    "A+ A+ R",                    # nothing but the new challenge (RC write) in between
+    "A+ M M A+ M R",              # own writes with MAC only
+    "A+ M! A+ M",                 # answer to a write with MAC lost: executed by the tag, failed for the reader
+    "A+! A+ N",                   # answer to the STATE write of the first authentication lost
+    "A+ O:A+ A+ M",               # another tag object authenticates (its STATE write moves WCNT, its RC ends the session)
+    "A+ M O:A+ O:M O:P A+ M R",
+    "N A+ W A+ N",                # an NDEF write (several writes with MAC) between
+    "A+ P A- A+ P M",
+    "O:A+ O:M A+ O:M O:A+ M A+",  # alternating objects: the writes with a void session key are refused by the tag
+]
 
 
 def order_message(rng):
@@ -1970,9 +2182,16 @@ def order_steps(rng, pattern, kind, pw, msg, rule):
     fam = family(kind)
     steps = []
     for tok in pattern.split():
+        other = tok.startswith("O:")
+        tok = tok[2:] if other else tok
+        lose = tok.endswith("!")
+        tok = tok.rstrip("!")
         t = 1 if tok.endswith("*") else 0
         op = tok.rstrip("*")
-        if op == "N":
+        if op in ("M", "P"):
+            free = list(range((len(msg) + 15) // 16 + 1, 14)) or [13]
+            st = {"op": "wmac" if op == "M" else "wplain", "block": rng.choice(free), "data": rng.randbytes(16)}
+        elif op == "N":
             st = {"op": "ndef"}
         elif op in ("A+", "A-"):
             right = op == "A+"
@@ -1990,6 +2209,10 @@ def order_steps(rng, pattern, kind, pw, msg, rule):
             st = {"op": "changed"}
         if t:
             st["t"] = 1
+        if other:
+            st["o"] = 1
+        if lose:
+            st["lose"] = "state-write" if st["op"] == "auth" else "mac-write"
         steps.append(st)
     return steps
 
@@ -2037,6 +2260,32 @@ def w_order(R, rng, desc):
             rule = {"rule": "t2-flip", "offset": 18 + rng.randrange(len(msg)), "bit": rng.randrange(8)}
             evaluate({"exp": "order", "ms": ms, "pw": pw, "rule": rule,
                       "steps": order_steps(rng, pattern, kind, pw, msg, rule)}, R)
+    # Lite-S: WCNT moves between the writes with MAC of one tag object (fixed sequences x counting rule, random ones)
+    for rep in range(desc["order"]):
+        for k, pattern in enumerate(ORDER_PATTERNS_WCNT):
+            order_wcnt_session(R, rng, pattern, WCNT_RULES[(k + shard + rep) % 3])
+    for _ in range(desc["order_rand"]):
+        toks = ["A+"] if rng.random() < 0.7 else []
+        for _i in range(rng.randrange(3, 8)):
+            op = rng.choice(["A+", "A+", "A-", "M", "M", "P", "P", "N", "W", "R", "O:A+", "O:M", "O:P"])
+            if op in ("M", "A+") and rng.random() < 0.15:
+                op += "!"
+            toks.append(op)
+        toks.append("A+")
+        order_wcnt_session(R, rng, " ".join(toks), rng.choice(WCNT_RULES))
+
+
+def order_wcnt_session(R, rng, pattern, wcnt_rule):
+    pw = gen_password(rng, "lites", "bytes", rng.choice([0, 16, 16, 24]))
+    msg = order_message(rng)[:rng.choice([150, 150, 40, 208])]
+    ms = t3_spec(rng, "lites", derive("lites", pw), msg=msg, ndef=True)
+    ms["wcnt_counts"] = wcnt_rule
+    if rng.random() < 0.3:
+        ms["wcnt"] = rng.choice([0xFD, 0xFFFC, 0x01FFFB])          # a byte of WCNT carries during the session
+    rule = order_rule(rng, msg)
+    R.count("order_wcnt_sessions/" + wcnt_rule)
+    evaluate({"exp": "order", "ms": ms, "pw": pw, "rule": rule,
+              "steps": order_steps(rng, pattern, "lites", pw, msg, rule)}, R)
 
 
 def run(desc, R, rng):
